@@ -33,7 +33,8 @@ set_option linter.unusedVariables false
 namespace LA.Acl
 open LA.Gen.AclMaps
 
-abbrev Ch := Nat
+/-- One `char` or `wchar_t`. -/
+scoped notation "Ch" => Nat
 
 /-- `struct archive_acl_entry` (without `next`). -/
 structure Entry where
